@@ -3,13 +3,37 @@ import importlib
 
 # property -> list of (rule module, configs it needs in quick tier)
 PROPERTY_RULES = {
+    "C10": ["r_c2", "r_e1"],
+    "C11": ["r_c2", "r_e1"],
     "C14": ["r_d1"],
+    "C16": ["r_e1"],
 }
 
 LEVEL = {"C14": "proof"}
 
 CLAUSES = {
+    "C10": "every typed getter uses the conversion/type/byte order/width its name promises, get_X and try_get_X decode identically, "
+           "error fields and cursor movement use the value width; no profile-dependent arithmetic on caller-controlled integers in the decoders",
+    "C11": "every typed putter uses the conversion/type/byte order/width its name promises (be = tail, le = head slicing of the 8-byte encoding)",
+    "C16": "no profile-dependent arithmetic (overflow/shift asserts) on caller-controlled integers anywhere in the crate",
     "C14": "all comparison/hash/borrow impls delegate to the [u8] impl over content-preserving views with operands in the right order",
+}
+
+LEVEL_TEXT = {
+    "C14": "Orientation analysis over resolved callees of all 56 comparison/hash/borrow impls: each delegates to the [u8] impl over "
+           "content-preserving views with (self, other) in order; holds for all byte strings, representations and operand orders.",
+}
+LEVEL_NOTE = {
+    "C14": "trusted: rustc type checking/trait resolution, std slice comparison and hash impls, std views (as_bytes, deref, [..]); views show the contents (C01).",
+}
+TECHNIQUE = {
+    "C14": "MIR orientation/delegation analysis over rustc-resolved callees (custom rustc_private driver)",
+    "C10": "name-grammar vs decode-signature agreement over MIR callees, sibling agreement get/try_get, taint+guard analysis of overflow asserts",
+    "C11": "name-grammar vs encode-signature agreement over MIR callees, taint+guard analysis of overflow asserts",
+    "C16": "taint + dominating-guard analysis of every MIR overflow/shift assert (profile-dependent arithmetic)",
+}
+NOT_APPLICABLE = {
+    "C18": "quantitative heap/allocation-count bound over 10^3..10^6-round histories; no structural clause whose violation implies the bound fails (DESIGN.md §6 C18)",
 }
 
 TRUSTED = [
